@@ -4,7 +4,9 @@ Host half : the real Reduino.Displays.LCD object (animate + tick(now)) against c
 Device half: generated scripts with lcd.animate(...) before `while True:`, transpiled by the real
 parse+emit, compiled against the mock core and run with a scripted millis() per pass, against
 coq/Device/DLCDAnim.v.  Independently of the models a property oracle is evaluated on every real
-trace (no delay, geometry, termination bound, looping never ends, rate limit, one step per due tick)."""
+trace (no delay, geometry, termination bound, looping never ends, rate limit, one step per due tick), for every
+animation that has its row to itself, on schedules that contain late passes followed by quick ones.  The oracle's notion
+of a due tick is cross-checked against the extracted specification schedule due_flags (C18_step_schedule_*)."""
 from __future__ import annotations
 
 import re
@@ -368,7 +370,7 @@ def gen_host_cases(ctx):
         cases.append({"cols": cols, "rows": rows, "i2c": j % 2 == 1, "anims": [[style, row, text, speed, loop]],
                       "nows": nows, "tick_kw": j % 5 == 0, "tag": f"grid:{kind}"})
     # speeds outside the boundary set, negative speeds (host clamps to 0), spaced / non-ASCII texts, mixed schedules
-    extra_texts = ["", "a", "Hi there", "héllo wörld ✓", "漢字かな", "  lead", "x" * 45]
+    extra_texts = ["", "a", "   ", "Hi there", "héllo wörld ✓", "漢字かな", "  lead", "x" * 45]
     for j in range(120 if thorough else 40):
         style = STYLES[j % 4]
         cols = rng.choice(COLS + [5, 7, 39])
@@ -451,7 +453,11 @@ def animate_call(name, a, variant):
     return f'{name}.animate("{style}", {row}, {py_str(text)}, speed_ms={speed}, loop={loop})'
 
 
-def device_script(lcds, loop_lines=None, runtime_speed=False):
+BUSY_PRE = ["k = 0"]
+BUSY_LOOP = ["k = k + 1", "if k > 3:", "    k = 0", "for q in range(2):", "    k = k + 0"]
+
+
+def device_script(lcds, loop_lines=None, runtime_speed=False, pre_lines=None):
     """lcds: [{"name","cols","rows","i2c","anims":[[style,row,text,speed,loop]...]}]"""
     L = ["from Reduino import target", "from Reduino.Displays import LCD", "from Reduino.Core import analog_read",
          'target("/dev/ttyUSB0")']
@@ -471,6 +477,7 @@ def device_script(lcds, loop_lines=None, runtime_speed=False):
             else:
                 L.append(animate_call(d["name"], a, j % 4))
             j += 1
+    L += list(pre_lines or [])
     L.append("while True:")
     L += ["    " + x for x in (loop_lines or ["pass"])]
     return "\n".join(L) + "\n"
@@ -685,6 +692,18 @@ def gen_device_groups(ctx):
                         singles.append({"style": style, "cols": cols, "n": n, "loop": loop, "speed": speed, "kind": kind,
                                         "rows": rows, "row": (j // 3) % rows, "i2c": j % 2 == 1, "salt": j})
                     j += 1
+    # thorough: widths between the boundary ones, one rotating speed/schedule pick per cell
+    if thorough:
+        for style in STYLES:
+            for cols in [4, 5, 6, 7, 10, 12, 15, 24, 32, 39]:
+                for n in len_classes(cols):
+                    for loop in (False, True):
+                        combos = [(s, k) for s in SPEEDS for k in KINDS]
+                        speed, kind = combos[(j * 7) % len(combos)]
+                        rows = [1, 2, 4][j % 3] if cols <= 20 else [1, 2][j % 2]
+                        singles.append({"style": style, "cols": cols, "n": n, "loop": loop, "speed": speed, "kind": kind,
+                                        "rows": rows, "row": (j // 3) % rows, "i2c": j % 2 == 1, "salt": j})
+                        j += 1
     # negative speed_ms (the emitted call casts it to unsigned long): every style x loop on three geometries
     for style in STYLES:
         for (cols, n) in ((2, 3), (8, 3), (16, 20)):
@@ -752,14 +771,16 @@ def gen_device_groups(ctx):
                               base_speed if rt else rng.choice([0, unit, unit, 1, 3, 100, -3]), rng.random() < 0.5])
             lcds.append({"name": f"m{q:02d}", "cols": cols, "rows": rows, "i2c": rng.random() < 0.5, "anims": anims})
         nows = tick_times(kind, base_speed if rt else unit, 60, rng, cap=250)
-        sketches.append({"lcds": lcds, "nows": nows, "runtime_speed": base_speed if rt else False,
-                         "tag": ("multi-rt:" if rt else "multi:") + kind})
+        # half of them with a main loop that does other (non-sleeping) work: the ticks must still come once per pass
+        sketches.append({"lcds": lcds, "nows": nows, "runtime_speed": base_speed if rt else False, "busy": j % 4 in (0, 3),
+                         "tag": ("multi-rt:" if rt else "multi:") + kind + (":busy-loop" if j % 4 in (0, 3) else "")})
     return sketches
 
 
 def run_device(ctx, stats):
     sketches = gen_device_groups(ctx)
-    srcs = [device_script(s["lcds"], runtime_speed=s["runtime_speed"]) for s in sketches]
+    srcs = [device_script(s["lcds"], runtime_speed=s["runtime_speed"], pre_lines=BUSY_PRE if s.get("busy") else None,
+                          loop_lines=BUSY_LOOP if s.get("busy") else None) for s in sketches]
     tr = fw.transpile_many(srcs)
     jobs, live = [], []
     for s, src, t in zip(sketches, srcs, tr):
@@ -800,7 +821,8 @@ def run_device(ctx, stats):
             if d["name"] not in ids:
                 ctx.disagree("device: LCD object not found among the emitted globals", {"script": src}, d["name"], order)
                 continue
-            case = {"lcd": d, "nows": s["nows"], "tag": s["tag"], "script_head": src.splitlines()[4:6]}
+            case = {"lcd": d, "nows": s["nows"], "tag": s["tag"], "script_head": src.splitlines()[4:6],
+                    "runtime_speed": s["runtime_speed"], "busy": bool(s.get("busy"))}
             model_cases.append(device_model_case(d, s["nows"]))
             index.append((case, len(parsed) - 1))
     model = ctx.model(model_cases) if (ctx.exe and model_cases) else [None] * len(model_cases)
@@ -986,13 +1008,17 @@ def replay(data):
     col = _Collector()
     if isinstance(case, dict) and "lcd" in case:
         d, nows = case["lcd"], case["nows"]
-        src = device_script([d])
+        rts = case.get("runtime_speed") or False
+        src = device_script([d], runtime_speed=rts, pre_lines=BUSY_PRE if case.get("busy") else None,
+                            loop_lines=BUSY_LOOP if case.get("busy") else None)
+        print("replay: script\n" + src)
         t = fw.transpile_many([src])[0]
         if not t["ok"]:
             print("REPRODUCED: the transpiler rejects the script", t)
             return 1
         incs = [nows[0]] + [b - a for a, b in zip(nows, nows[1:])]
-        o = fw.run_sketches([{"cpp": t["cpp"], "input": "clock0 0\npass " + " ".join(map(str, incs)) + "\n", "loops": len(nows),
+        inp = "clock0 0\npass " + " ".join(map(str, incs)) + "\n" + (f"ar 14 {rts}\nar 15 0\n" if rts else "")
+        o = fw.run_sketches([{"cpp": t["cpp"], "input": inp, "loops": len(nows),
                               "env": {"REDU_LCD_DUMP": "1", "REDU_NO_READ_EVENTS": "1"}, "run_timeout": 120}])[0]
         if not o["compiled"] or o["rc"] != 0:
             print("REPRODUCED: the emitted sketch does not compile / crashed", o["compile_log"][-600:], o["stderr"][-300:])
@@ -1058,10 +1084,15 @@ def run(ctx: C.Ctx):
     ctx.coverage.update({
         "evaluations": len(hcases) + len(dindex) + stats.get("injection_shapes", 0),
         "distinct_nontrivial": h_nt + d_nt,
-        "rule": "host: (4 styles x cols in {1,2,3,8,16,20,40} x len in {0,1,cols-1,cols,cols+1,2cols} x loop x speed in {0,1,100} x tick schedule in {ontime,early,late,equal}) "
-                "(quick: two speed/schedule picks per cell, thorough: all, plus every other width 1..40 with two picks per cell), plus seeded random single and multi-animation cases with invalid styles/rows; "
-                "device: the same grid, one LCD object per case batched into sketches that share a scripted millis() schedule, plus multi-animation / two-display / run-time-argument sketches; "
-                "tick histories are long enough to contain more than len+2*cols+2 due ticks (non-looping). Non-trivial = at least one frame was drawn by a tick; distinct by (geometry, animations, schedule prefix).",
+        "rule": "host: (4 styles x cols in {1,2,3,8,16,20,40} x len in {0,1,cols-1,cols,cols+1,2cols} x loop x speed in {0,1,100} x tick schedule in {ontime,early,late,equal,burst}) "
+                "(quick: two speed/schedule picks per cell rotating over all 15 pairs, thorough: all, plus every other width 1..40 with two picks per cell), plus seeded random single-animation cases "
+                "(speeds -5..70000, mixed and burst schedules) and multi-animation cases with invalid styles/rows; "
+                "device: the same grid, one LCD object per case batched into sketches that share a scripted millis() schedule (first pass at 1, 7, 1000 or just below 2^31 ms), plus speeds 7/1000/70000 "
+                "(thorough also 2/40000 and the in-between widths 4..39), plus multi-animation / several-display / run-time-argument sketches on mixed and burst schedules, half of them with a main loop doing other work; "
+                "schedule 'burst' = late passes (2..5 periods) each followed by several quick passes (0, 1, period/4 ... apart) and then one exactly on time; 'mixed' draws gaps from {0,1,p-1,p,p+1,2p,p/2,3p+1,7p+3}; "
+                "tick histories are long enough to contain more than len+2*cols+2 due ticks (non-looping). The per-animation relations (rate limit over all pairs of steps, no due pass skipped, no frame after a skipped due pass, "
+                "termination bound, one frame per step) are evaluated for every animation that has its row to itself (device) / for every animation (host). "
+                "Non-trivial = at least one frame was drawn by a tick; distinct by (geometry, animations, schedule prefix).",
         "samples": [hcases[0], hcases[len(hcases) // 2], dindex[0][0] if dindex else None],
         "distribution": stats,
         "guard": "host: cols, rows >= 1, tick times positive and non-decreasing; device: additionally 0 <= row < rows, text without control characters, quotes or backslashes (non-ASCII text = its UTF-8 bytes; speed_ms may be negative: cast to unsigned long), "
